@@ -1,7 +1,7 @@
 /* Contracts for ikos::separate_domain<K,GV> (separate_domains.hpp) — the environment layer of C19 / C04 / C05.
  * PROVED: the real separate_domain code (flag logic, which tree operation with which operation object, what is
  * done with its result) and the real operation objects join_op, widening_op, widening_thresholds_op, meet_op,
- * narrowing_op, domain_po.
+ * narrowing_op, domain_po; the set containers patricia_tree_set / discrete_domain (contracts_set.c, contracts_setops.c).
  * ASSUMED (replace=, never enforced; listed in unit.json): the patricia_tree member functions, as a finite
  * map known through uninterpreted observers of the root pointer (spec.h), and shared_ptr ownership plumbing
  * (copy / move / destroy of a patricia_tree only move the root pointer around). */
@@ -410,3 +410,4 @@ void h_rename1(void){
 
 #include "contracts_iter.c"
 #include "contracts_set.c"
+#include "contracts_setops.c"
